@@ -97,12 +97,15 @@ def run_history(ctx, evs):
                     ctx.fail("open-not-refused-as-prohibited", case, "reply %s" % rep)
             else:
                 ch = pair.session()
-                extra = R.S(b"xterm", 80, 24, 0, 0, b"") if kind == b"pty-req" else R.S(b"ls", b"x", 7, 7)
+                extra = R.S(b"xterm", 80, 24, 0, 0, b"") if kind == b"pty-req" else (
+                    R.S(b"pvsub") if kind == b"subsystem" else R.S(b"ls", b"x", 7, 7))
                 got = pair.push(98, R.S(ch.get_id()) + R.S(kind, parts[2] == "1") + extra)
                 rep = R.canon_reply(got)
                 ctx.dist("chanreq:" + kind.decode("latin1"))
                 if "cs" in rep and kind in NEVER:
                     ctx.fail("channel-request-approved:%s" % kind.decode("latin1"), case, "CHANNEL_SUCCESS")
+                if pair.subsystem_started:
+                    ctx.fail("subsystem-started-on-client", case, repr(pair.subsystem_started))
             replies.append(rep)
         return replies
     finally:
